@@ -367,6 +367,12 @@ func (s *FileSystemSigner) loadKeys(passphrase []byte) error {
 		return fmt.Errorf("failed to unmarshal public key: %w", err)
 	}
 
+	// The public key is stored in clear text next to the sealed private key and is not
+	// covered by the seal: it must be the one that belongs to the private key.
+	if !privKey.GetPublic().Equals(pubKey) {
+		return fmt.Errorf("public key in key file does not match the private key")
+	}
+
 	// Set the keys
 	s.privateKey = privKey
 	s.publicKey = pubKey
